@@ -129,6 +129,14 @@ fn work_dir() -> String {
     std::env::var("VERIF_TMP").unwrap_or_else(|_| std::env::temp_dir().to_string_lossy().to_string())
 }
 
+/// a text whose last line is not terminated (only for rendered text, never for an injected override)
+fn strip_final_newline(mut t: (String, Vec<(u64, String)>), strip: bool) -> (String, Vec<(u64, String)>) {
+    if strip && t.0.ends_with('\n') {
+        t.0.pop();
+    }
+    t
+}
+
 pub fn temp_text_file(text: &str) -> tempfile::NamedTempFile {
     let mut f = tempfile::Builder::new()
         .prefix("vh_")
@@ -196,7 +204,7 @@ pub fn write_bw_raw<W: Write + Seek + Send + 'static>(
             }
         }
         SourceKind::SerialText => {
-            let (text, _) = text_override.unwrap_or_else(|| bw_text(&items));
+            let (text, _) = text_override.unwrap_or_else(|| strip_final_newline(bw_text(&items), o.no_final_newline));
             if o.multipass {
                 w.write_multipass(
                     || {
@@ -217,7 +225,7 @@ pub fn write_bw_raw<W: Write + Seek + Send + 'static>(
             }
         }
         SourceKind::ParallelText => {
-            let (text, index) = text_override.unwrap_or_else(|| bw_text(&items));
+            let (text, index) = text_override.unwrap_or_else(|| strip_final_newline(bw_text(&items), o.no_final_newline));
             let f = temp_text_file(&text);
             let path = f.path().to_path_buf();
             let r = if o.multipass {
@@ -302,7 +310,7 @@ pub fn write_bb_raw<W: Write + Seek + Send + 'static>(
             }
         }
         SourceKind::SerialText => {
-            let (text, _) = text_override.unwrap_or_else(|| bb_text(&items));
+            let (text, _) = text_override.unwrap_or_else(|| strip_final_newline(bb_text(&items), o.no_final_newline));
             if o.multipass {
                 w.write_multipass(
                     || {
@@ -323,7 +331,7 @@ pub fn write_bb_raw<W: Write + Seek + Send + 'static>(
             }
         }
         SourceKind::ParallelText => {
-            let (text, index) = text_override.unwrap_or_else(|| bb_text(&items));
+            let (text, index) = text_override.unwrap_or_else(|| strip_final_newline(bb_text(&items), o.no_final_newline));
             let f = temp_text_file(&text);
             let path = f.path().to_path_buf();
             let r = if o.multipass {
